@@ -146,6 +146,16 @@ def tla_value(v):
     raise TypeError(v)
 
 
+def _die_with_parent():
+    """a TLC process must not outlive the check that started it (a killed check once left a 16-core model run behind)"""
+    try:
+        import ctypes
+        import signal
+        ctypes.CDLL('libc.so.6').prctl(1, signal.SIGKILL)      # PR_SET_PDEATHSIG
+    except Exception:  # noqa
+        pass
+
+
 def run_tlc(module, cfg, scratch, *, env=None, workers=1, simulate=None, depth=None, seed=None,
             timeout=3600, coverage=False, deque=False, xmx='2g', extra=(), dump=None, cont=False):
     """module: name in /verif/spec (without .tla).  cfg: path.  Returns TLCResult."""
@@ -176,7 +186,7 @@ def run_tlc(module, cfg, scratch, *, env=None, workers=1, simulate=None, depth=N
     t0 = time.time()
     try:
         p = subprocess.run(cmd, cwd=meta, env=e, stdout=subprocess.PIPE, stderr=subprocess.STDOUT,
-                           timeout=timeout, text=True, errors='replace')
+                           timeout=timeout, text=True, errors='replace', preexec_fn=_die_with_parent)
         out, rc = p.stdout, p.returncode
     except subprocess.TimeoutExpired as ex:
         out = (ex.stdout or b'')
